@@ -7,17 +7,8 @@ from . import k7
 
 
 def table(prog, mod, name):
-    c = prog.consts.get(mod + "::" + name)
-    if not c or not isinstance(c.get("v"), dict):
-        return None
-    v = c["v"]
-    if "ints" in v:
-        return [int(x) for x in v["ints"]]
-    if "bytes" in v:
-        return list(v["bytes"])
-    if "int" in v:
-        return int(v["int"])
-    return None
+    from .consts import const_value
+    return const_value(prog, mod, name)
 
 
 def check_tables(ctx, prog, R):
